@@ -61,11 +61,6 @@ theorem switch_preserves_histogram (D : Mat) (n k : Nat) (perm : List Nat) (hp :
     (ValidLab lab n k → ValidLab (switchClusters D perm lab) n k) :=
   switchClusters_inv D n k perm hp lab
 
-theorem balanced_of_switch (D : Mat) (n k : Nat) (perm : List Nat) (hp : ∀ j, j ∈ perm → j < n) (lab : Arr Nat)
-    (h : Balanced lab n k) : Balanced (switchClusters D perm lab) n k := by
-  intro c hc
-  rw [(switchClusters_inv D n k perm hp lab).1 c]; exact h c hc
-
 /-- One association call of strategy 'distance' (and 'distance_p', same code with the same quotas) returns
 labels that are valid and balanced: every cluster ends with ⌊n/k⌋ or ⌈n/k⌉ points. -/
 theorem distance_balanced (n k : Nat) (hn : 1 ≤ n) (hk : 1 ≤ k) (D : Mat) (prefs : Arr (List Nat))
@@ -131,56 +126,12 @@ theorem centers_finite (lab : Arr Nat) (n k : Nat) (hk : 1 ≤ k) (hnk : k ≤ n
 
 /-! ### outer loop: best tracking and n_iter -/
 
-theorem outerGuard_iff (iter maxIter : Int) : C07.outerGuard iter maxIter = true ↔ iter < maxIter := by
-  unfold C07.outerGuard; simp <;> omega
-
-theorem iterNext_eq (iter : Int) : C07.iterNext iter = iter + 1 := by
-  unfold C07.iterNext; rfl
-
-theorem outerLoop_inv {α} (assoc : Arr Nat → α → Option (Arr Nat)) (P : Arr Nat → Prop)
-    (hassoc : ∀ lab a lab', assoc lab a = some lab' → P lab') (maxIter : Int) :
-    ∀ (steps : List (α × Rat)) (lab : Arr Nat) (iter : Int) (best : Option Best) (r : Option Best × Int),
-      (∀ b, best = some b → P b.lab) → iter ≤ maxIter →
-      outerLoop assoc maxIter steps lab iter best = some r →
-      (∀ b, r.1 = some b → P b.lab) ∧ r.2 ≤ maxIter := by
-  intro steps
-  induction steps with
-  | nil =>
-    intro lab iter best r hb hi h
-    simp only [outerLoop] at h
-    split at h
-    · cases h
-    · cases h; exact ⟨hb, hi⟩
-  | cons st rest ih =>
-    intro lab iter best r hb hi h
-    obtain ⟨a, inertia⟩ := st
-    simp only [outerLoop] at h
-    by_cases hg : C07.outerGuard iter maxIter = true
-    · rw [if_pos hg] at h
-      rw [outerGuard_iff] at hg
-      cases hl : assoc lab a with
-      | none => rw [hl] at h; cases h
-      | some lab' =>
-        rw [hl] at h
-        simp only [] at h
-        have hP := hassoc lab a lab' hl
-        have hi' : C07.iterNext iter ≤ maxIter := by rw [iterNext_eq]; omega
-        have hb' : ∀ b, updateBest best lab' inertia (C07.iterNext iter) = some b → P b.lab := by
-          intro b hbb
-          unfold updateBest at hbb
-          split at hbb
-          · cases hbb; exact hP
-          · exact hb b hbb
-        split at h
-        · cases h; exact ⟨hb', hi'⟩
-        · exact ih lab' _ _ r hb' hi' h
-    · rw [if_neg hg] at h; cases h; exact ⟨hb, hi⟩
-
-/-- `constraint_kmeans` returns one of the labelings produced by an association call, and
+/-- `constraint_kmeans` returns one of the labelings produced by an association call of the loop, and
 `n_iter_ ≤ max_iter` (given that the initial k-means used at most `max_iter` iterations). -/
 theorem fit_returns_an_association {α} (assoc : Arr Nat → α → Option (Arr Nat)) (P : Arr Nat → Prop)
-    (hassoc : ∀ lab a lab', assoc lab a = some lab' → P lab') (maxIter : Int) (lab0 : Arr Nat) (iter0 : Int)
-    (h0 : iter0 ≤ maxIter) (first : α) (steps : List (α × Rat)) (lab : Arr Nat) (iter : Int)
+    (maxIter : Int) (lab0 : Arr Nat) (iter0 : Int) (h0 : iter0 ≤ maxIter) (first : α) (steps : List (α × Rat))
+    (hassoc : ∀ lab a lab' x, (a, x) ∈ steps → assoc lab a = some lab' → P lab')
+    (lab : Arr Nat) (iter : Int)
     (h : constraintKMeans assoc maxIter lab0 iter0 first steps = some (lab, iter)) :
     P lab ∧ iter ≤ maxIter := by
   unfold constraintKMeans at h
@@ -192,7 +143,7 @@ theorem fit_returns_an_association {α} (assoc : Arr Nat → α → Option (Arr 
       have e := Option.some.inj h
       have e1 : b.lab = lab := congrArg Prod.fst e
       have e2 : it = iter := congrArg Prod.snd e
-      have := outerLoop_inv assoc P hassoc maxIter steps lab1 iter0 none (some b, it)
+      have := outerLoop_inv assoc P maxIter steps lab1 iter0 none (some b, it) hassoc
         (fun b hb => by cases hb) h0 hq
       rw [← e1, ← e2]
       exact ⟨this.1 b rfl, this.2⟩
@@ -201,8 +152,8 @@ theorem fit_returns_an_association {α} (assoc : Arr Nat → α → Option (Arr 
 theorem n_iter_le_max_iter {α} (assoc : Arr Nat → α → Option (Arr Nat)) (maxIter : Int) (lab0 : Arr Nat)
     (iter0 : Int) (h0 : iter0 ≤ maxIter) (first : α) (steps : List (α × Rat)) (lab : Arr Nat) (iter : Int)
     (h : constraintKMeans assoc maxIter lab0 iter0 first steps = some (lab, iter)) : iter ≤ maxIter :=
-  (fit_returns_an_association assoc (fun _ => True) (fun _ _ _ _ => trivial) maxIter lab0 iter0 h0 first steps
-    lab iter h).2
+  (fit_returns_an_association assoc (fun _ => True) maxIter lab0 iter0 h0 first steps
+    (fun _ _ _ _ _ _ => trivial) lab iter h).2
 
 /-- the inputs of one association call of strategy 'distance', as recorded -/
 structure DistCall where
@@ -217,36 +168,20 @@ structure DistCall where
 distance matrices / draws / inertias the iterations go through. -/
 theorem fit_labels_balanced (n k : Nat) (hn : 1 ≤ n) (hk : 1 ≤ k) (maxIter iter0 : Int) (h0 : iter0 ≤ maxIter)
     (lab0 : Arr Nat) (first : DistCall) (steps : List (DistCall × Rat))
-    (hin : ∀ a : DistCall, DistInputs n k a.prefs a.p a.perm) (lab : Arr Nat) (iter : Int)
+    (hin : ∀ a x, (a, x) ∈ steps → DistInputs n k a.prefs a.p a.perm) (lab : Arr Nat) (iter : Int)
     (h : constraintKMeans (fun _ (a : DistCall) =>
         assocDistance n k (C07.limit n k) (C07.leftover n k) a.D a.prefs (a.p :: a.ps) a.eps a.perm)
       maxIter lab0 iter0 first steps = some (lab, iter)) :
     Balanced lab n k ∧ ValidLab lab n k ∧ iter ≤ maxIter := by
   have := fit_returns_an_association _ (fun l => Balanced l n k ∧ ValidLab l n k)
-    (fun _ a lab' hl => by
-      obtain ⟨l, e, hb, hv⟩ := distance_balanced n k hn hk a.D a.prefs a.p a.ps a.eps a.perm (hin a)
+    maxIter lab0 iter0 h0 first steps
+    (fun _ a lab' x hx hl => by
+      obtain ⟨l, e, hb, hv⟩ := distance_balanced n k hn hk a.D a.prefs a.p a.ps a.eps a.perm (hin a x hx)
       rw [e] at hl; cases hl; exact ⟨hb, hv⟩)
-    maxIter lab0 iter0 h0 first steps lab iter h
+    lab iter h
   exact ⟨this.1.1, this.1.2, this.2⟩
 
 /-! ### plain prediction -/
-
-theorem argminRow_min (row : Nat → Int) (k : Nat) : ∀ c, c < k → row (argminRow row k) ≤ row c := by
-  induction k with
-  | zero => intro c hc; omega
-  | succ k ih =>
-    intro c hc
-    simp only [argminRow]
-    by_cases e : k = 0
-    · subst e
-      have : c = 0 := by omega
-      subst this; simp
-    · rw [if_neg e]
-      by_cases hc' : c = k
-      · subst hc'
-        split <;> omega
-      · have := ih c (by omega)
-        split <;> omega
 
 /-- Without balanced predictions `predict` delegates to `KMeans.predict` whatever `weights_` is (regenerated
 dispatch), i.e. returns the index of a nearest centre: no centre is closer than the chosen one. -/
@@ -366,7 +301,7 @@ structure GainCall where
 /-- `fit` with strategy 'gain': `labels_` is valid and balanced whatever the start. -/
 theorem gain_fit_labels_balanced (n k : Nat) (hk : 1 ≤ k) (maxIter iter0 : Int) (h0 : iter0 ≤ maxIter)
     (lab0 : Arr Nat) (first : GainCall) (steps : List (GainCall × Rat))
-    (hin : ∀ a : GainCall, GainInputs n k a.pairs a.draws a.perm) (lab : Arr Nat) (iter : Int)
+    (hin : ∀ a x, (a, x) ∈ steps → GainInputs n k a.pairs a.draws a.perm) (lab : Arr Nat) (iter : Int)
     (h : constraintKMeans (fun l (a : GainCall) =>
         if ∀ i, i < n → l.get i < k then
           (match assocGain genCfg n k (C07.limit n k) a.D false l a.pairs a.draws a.perm with
@@ -376,16 +311,17 @@ theorem gain_fit_labels_balanced (n k : Nat) (hk : 1 ≤ k) (maxIter iter0 : Int
       maxIter lab0 iter0 first steps = some (lab, iter)) :
     Balanced lab n k ∧ ValidLab lab n k ∧ iter ≤ maxIter := by
   have := fit_returns_an_association _ (fun l => Balanced l n k ∧ ValidLab l n k)
-    (fun l a lab' hl => by
+    maxIter lab0 iter0 h0 first steps
+    (fun l a lab' x hx hl => by
       split at hl
       · rename_i hvl
         split at hl
         · rename_i l' hq
           cases hl
-          exact (gain_balanced n k hk a.D false l (fun _ => hvl) a.pairs a.draws a.perm (hin a)).2 _ hq
+          exact (gain_balanced n k hk a.D false l (fun _ => hvl) a.pairs a.draws a.perm (hin a x hx)).2 _ hq
         · cases hl
       · cases hl)
-    maxIter lab0 iter0 h0 first steps lab iter h
+    lab iter h
   exact ⟨this.1.1, this.1.2, this.2⟩
 
 /-- D11 (the code as of the snapshot, before any repair): strategy 'gain' leaves sizes 3,1,1 for n = 5, k = 3
@@ -408,6 +344,11 @@ example : DistInputs 5 2 witPrefs2 witPass2 witPerm2 :=
   ⟨by decide, by unfold Covers; decide, by decide, by decide⟩
 example : distSizes 5 2 (C07.limit 5 2) (C07.leftover 5 2) witD2 witPrefs2 [witPass2] (1/100000) witPerm2 = [3, 2] := by
   decide +kernel
+example : fitSizes (fun _ (a : DistCall) =>
+      assocDistance 5 2 (C07.limit 5 2) (C07.leftover 5 2) a.D a.prefs (a.p :: a.ps) a.eps a.perm) 5 2 3
+    (Arr.ofList [0,0,0,0,0] 0) 1 ⟨witD2, witPrefs2, witPass2, [], 1/100000, witPerm2⟩
+    [(⟨witD2, witPrefs2, witPass2, [], 1/100000, witPerm2⟩, 9), (⟨witD2, witPrefs2, witPass2, [], 1/100000, witPerm2⟩, 7)]
+    = some ([3, 2], 3) := by decide +kernel
 example : centerCoord 7 2 = some (7 / 2) := by decide +kernel
 example : predictPlain 3 (fun c => [5, 2, 2].getD c 0) = 1 := by decide
 
